@@ -22,6 +22,15 @@ NOT_DECIDED = ["interleavings (the rules decide the protocol shape, which is sch
 ASSUMPTIONS = ["pthread_create/pthread_join semantics", "aws_mutex is non-recursive", "aws_linked_list operations have their documented effect (C09)"]
 
 
+def _assignment_of_any(f, ev):
+    for b in f.blocks.values():
+        for el in b.elems:
+            for n in f.walk(el):
+                if n["k"] == "bin" and n["op"] == "=" and f.d(n["a"][0]) is ev.node:
+                    return n
+    return None
+
+
 def gacc(f, names=GUARDED):
     return [e for e in f.all_events() if e.kind == "access" and e.node["k"] == "var" and e.node.get("sc") == "global" and e.node["n"] in names]
 
@@ -272,6 +281,23 @@ def join_list(R, f):
         itname = itv[0] if itv else None
         adv = [e for e in f.all_events() if e.kind == "access" and e.node["k"] == "var" and e.node["n"] == itname and e.mode == "w"]
         okadv = any(ev_dominates(f, decl[0], a, dom) and ev_dominates(f, a, destroy[0], dom) for a in adv)
+        if not okadv:
+            # equally good: the successor is fetched into another variable before the destroy, and the iterator is only ever
+            # set from that variable afterwards (a for loop with a saved `next`)
+            nx = [e for e in f.calls("aws_linked_list_next") if argstr(f, e.node, 0, addr=False) == itname]
+            saved = set()
+            for e in nx:
+                for b_ in f.blocks.values():
+                    for el in b_.elems:
+                        if el["k"] == "bin" and el["op"] == "=" and RU.uncast(f, el["a"][1]) is e.node and (f.d(el["a"][0]) or {}).get("k") == "var":
+                            saved.add(f.d(el["a"][0])["n"])
+                        if el["k"] == "decl":
+                            for v in el["vars"]:
+                                if v.get("init") is not None and RU.uncast(f, v["init"]) is e.node:
+                                    saved.add(v["n"])
+            loopw = [a for a in adv if a in RU.reach_from(f, destroy[0])]
+            from_saved = all((lambda a_: a_ is not None and a_["op"] == "=" and (RU.uncast(f, a_["a"][1]) or {}).get("k") == "var" and RU.uncast(f, a_["a"][1])["n"] in saved)(_assignment_of_any(f, a)) for a in loopw)
+            okadv = bool(nx) and bool(saved) and all(ev_dominates(f, e, destroy[0], dom) for e in nx) and bool(loopw) and from_saved
         R.check(okadv, "JOIN-LIST", "iterator-advanced-before-destroy", where(f, destroy[0]), "`%s` is advanced after the wrapper is derived and before it is destroyed" % itname,
                 "the list iterator still points into the wrapper when it is destroyed: the next iteration reads freed memory")
     order = [("set-joinable", [e for e in f.field_accesses(field="detach_state", modes=("w",))]), ("join", joins), ("clean-up", cleans), ("destroy", destroy), ("decrement", decs)]
@@ -364,7 +390,7 @@ def thread_fn(R, f):
                 "a field of the at-exit node is read after / without being read before its release (fields read before: %s)" % sorted(fields))
         later = RU.dead_after(f, rel[0], node)
         R.check(not later, "THREAD-FN", "atexit-node-dead-after-release", where(f, rel[0]), "node not touched after release", "at-exit node used after release at lines %s" % [x.line for x in later][:3])
-        cbs = [e for e in f.indirect_calls() if RU.indirect_via(f, e.node) and RU.indirect_via(f, e.node)[0] == "<var>" and (f.d(e.node["fn"]) or {}).get("sc") == "local"]
+        cbs = [e for e in f.indirect_calls() if RU.indirect_via(f, e.node) and (RU.indirect_via(f, e.node) == ("thread_atexit_callback", "callback") or (RU.indirect_via(f, e.node)[0] == "<var>" and (f.d(e.node["fn"]) or {}).get("sc") == "local"))]
         R.check(len(cbs) == 1 and ev_dominates(f, fc, cbs[0], dom), "THREAD-FN", "atexit-callback-invoked-after-func", where(f, (cbs or [fc])[0]), "callbacks run after the user function")
         if cbs:
             # same loop: callback invoked once per released node
